@@ -187,3 +187,4 @@ pub mod c31;
 pub mod c02;
 pub mod c29;
 pub mod c10;
+pub mod c22;
